@@ -372,6 +372,24 @@ def clause5_success_effect(ctx, P, cg):
            "remove_element is not the unconditional sequence announce, unlink, un-index, free (found %s)" % names)
 
 
+def clause7_kind(ctx, P):
+    """an element is a state iff its add request carried a value member - whatever JSON type that value has (null included):
+    the store of e->value in init_element is guarded by 'value member present' and allocation successes only"""
+    ie = P.fn("element.c:init_element")
+    sts = [i for i in ie.all_insts() if i.op == "store" and P.term(ie, i.a[1])[0] == "field" and P.term(ie, i.a[1])[2] == "struct.element"
+           and P.term(ie, i.a[1])[3] == "value" and not P.is_null(i.a[0])]
+    if not sts:
+        raise AnalysisBroken("init_element: store of the element's value not found")
+    for st in sts:
+        typed = [a for (a, p) in Q.guards_of(P, ie, st.block)
+                 if Q.mentions(a, lambda x: x[0] == "field" and x[2] == "struct.cJSON" and x[3] in ("type", "valueint", "valuedouble", "valuestring"))
+                 and Q.mentions(a, lambda x: Q.is_call_to(x, "cJSON_GetObjectItem") and x[2][1] == ("str", "value"))]
+        ctx.ob("C04.3 R-GATE", ie, Q.ordinal_site(ie, st, P) + ":state-iff-value-given", not typed,
+               "whether an added element becomes a state depends on the TYPE or content of its initial value (%s): an element added with "
+               "such a value is registered as a method - call is routed to it, set and change are refused" %
+               "; ".join(fmt_atom(a, True) for a in typed[:2]))
+
+
 def clause6_wrappers(ctx, P):
     """the three accessors of the path index agree on the key domain: each consults the table on every path with the key it
     was given (a lookup that answers 'absent' without looking lets a second element take a path that put() accepted)"""
@@ -393,6 +411,7 @@ def clause6_wrappers(ctx, P):
 def run(ctx):
     for cfg in ctx.configs():
         clause6_wrappers(ctx, cfg.P)
+        clause7_kind(ctx, cfg.P)
         clause1_unique(ctx, cfg.P)
         clause2_owner(ctx, cfg.P)
         clause3_typing(ctx, cfg.P)
